@@ -163,6 +163,17 @@ impl Check for C16 {
                     }
                     judge_err("replace_all", matches!(r, Out::Err(EK::MatchesEmptyString)), r.ok().is_some(), r.show(), out);
                     judge_err("analyze", matches!(a, Out::Err(EK::MatchesEmptyString)), a.ok().is_some(), a.show(), out);
+                    // a regex that matches the empty string is rejected as such whatever the
+                    // replacement string looks like
+                    if nullable {
+                        for bad in ["$", "\\", "[$]"] {
+                            let rb = imp::replace_all(&re, inp, bad);
+                            out.inc("validated");
+                            if !rb.is_crash() && !matches!(rb, Out::Err(EK::MatchesEmptyString)) {
+                                out.fail("C16", &base.clone().repl(bad).api("replace_all"), "NullableNotRejected", want, &rb.show(), "malformed replacement string");
+                            }
+                        }
+                    }
                     if inp.is_empty() {
                         out.inc("validated");
                         if t != Out::Ok(vec![]) {
